@@ -91,6 +91,13 @@ type Spec struct {
 	MaxStates int // safety cap; 0 = none
 	Deadline  time.Duration
 	Workers   int // goroutines expanding the frontier; 0 = all cores (1 for systems that use process-global seams)
+	// PureObservers: the property itself says that the observers leave the object unchanged (trie, lists),
+	// so a change of the private state by the observer suite is a finding. Otherwise such a change is
+	// legitimate (a lookup cache, lazy clean-up) and the engine reacts by making the observer suite an
+	// operation of the alphabet ("<observe>"), so that histories with and without queries in between are
+	// both explored and judged by what the calls return.
+	PureObservers bool
+	observeOp     bool // set by Run after the observers were seen to change the state
 }
 
 type Path struct {
@@ -114,6 +121,7 @@ func (p Path) String() string {
 }
 
 type Stats struct {
+	ObserversStateful                      bool // the observer suite changed the private state somewhere
 	States, Transitions, Cut, Depth, Pruned int
 	Exhaustive                     bool
 	Closure                        string
@@ -128,18 +136,28 @@ func (sp *Spec) Build(p Path) (s Sys, err error) {
 	}()
 	s = sp.New(p.Init)
 	var c Ctx
-	for _, o := range p.Ops {
+	for i, o := range p.Ops {
+		if o.N == ObserveOp {
+			i := i
+			oc := &Ctx{Copy: func() Sys { x, _ := sp.Build(Path{p.Init, p.Ops[:i]}); return x }}
+			s.Observe(oc)
+			continue
+		}
 		s.Apply(o, &c)
 	}
 	return s, nil
 }
 
 type result struct {
-	op    Op
-	fails []Fail
-	key   string
-	prune bool
+	op         Op
+	fails      []Fail
+	key        string
+	prune      bool
+	obsChanged bool
 }
+
+// ObserveOp is the engine-provided operation "run the observer suite" (see Spec.PureObservers).
+const ObserveOp = "<observe>"
 
 // step builds path, applies op with checks and observers.
 func (sp *Spec) step(p Path, op Op) (res result) {
@@ -152,8 +170,9 @@ func (sp *Spec) step(p Path, op Op) (res result) {
 	}
 	c := &Ctx{}
 	c.Copy = func() Sys { x, _ := sp.Build(np); return x }
+	obsKey := ""
 	opClass := op.N
-	if oc, ok := s.(interface{ OpClass(Op) string }); ok {
+	if oc, ok := s.(interface{ OpClass(Op) string }); ok && op.N != ObserveOp {
 		opClass = oc.OpClass(op) // evaluated on the pre-state
 	}
 	func() {
@@ -162,6 +181,13 @@ func (sp *Spec) step(p Path, op Op) (res result) {
 				c.Fail(fmt.Sprintf("%s.%s/panic", sp.keyName(), opClass), "panic: %v\n%s", r, trimStack(debug.Stack()))
 			}
 		}()
+		if op.N == ObserveOp {
+			s.Observe(c)
+			for i := range c.Fails {
+				c.Fails[i].Key = attribute(sp.Component, "observers", c.Fails[i].Key)
+			}
+			return
+		}
 		s.Apply(op, c)
 	}()
 	if !c.hard() {
@@ -178,7 +204,12 @@ func (sp *Spec) step(p Path, op Op) (res result) {
 				c.Fails[i].Key = attribute(sp.Component, opClass, c.Fails[i].Key)
 			}
 			if after := s.Key(); after != before && !c.hard() {
-				c.Fail(sp.keyName()+".observers/changed-state", "observers changed the state:\n before %s\n after  %s", before, after)
+				if sp.PureObservers {
+					c.Fail(sp.keyName()+".observers/changed-state", "observers changed the state:\n before %s\n after  %s", before, after)
+				} else {
+					res.obsChanged = true
+					obsKey = before // successors are built without the observer calls
+				}
 			}
 		}()
 	}
@@ -186,6 +217,9 @@ func (sp *Spec) step(p Path, op Op) (res result) {
 	res.prune = c.Prune
 	if !c.hard() {
 		res.key = s.Key()
+		if obsKey != "" {
+			res.key = obsKey
+		}
 	}
 	return
 }
@@ -228,7 +262,7 @@ func (sp *Spec) guardedStep(p Path, op Op) result {
 	}
 	s, _ := sp.Build(p)
 	cls := op.N
-	if oc, ok := s.(interface{ OpClass(Op) string }); ok {
+	if oc, ok := s.(interface{ OpClass(Op) string }); ok && op.N != ObserveOp {
 		cls = oc.OpClass(op)
 	}
 	return result{op: op, fails: []Fail{{Key: fmt.Sprintf("%s.%s/does-not-terminate", sp.keyName(), cls), Detail: "the operation (or the observer suite after it) did not return within 60 s"}}}
@@ -248,8 +282,22 @@ func trimStack(b []byte) string {
 	return strings.Join(out, " | ")
 }
 
-// Run explores sp breadth-first and records findings in rep.
+// Run explores sp breadth-first and records findings in rep. If the observer suite turns out to
+// change the private state of the object (and the property does not forbid that), the search is
+// repeated with the observer suite as an additional operation of the alphabet.
 func (sp *Spec) Run(rep *core.Report) Stats {
+	st := sp.runOnce(rep)
+	if st.ObserversStateful && !sp.observeOp {
+		sp.observeOp = true
+		st2 := sp.runOnce(rep)
+		st2.Transitions += st.Transitions
+		st2.ObserversStateful = true
+		return st2
+	}
+	return st
+}
+
+func (sp *Spec) runOnce(rep *core.Report) Stats {
 	start := time.Now()
 	seen := map[string]struct{}{}
 	var frontier []Path
@@ -336,6 +384,9 @@ func (sp *Spec) Run(rep *core.Report) Stats {
 						defer func() { recover() }()
 						ops = s.Ops()
 					}()
+					if sp.observeOp {
+						ops = append(append([]Op{}, ops...), Op{N: ObserveOp})
+					}
 					rs := make([]result, 0, len(ops))
 					for _, op := range ops {
 						rs = append(rs, sp.guardedStep(p, op))
@@ -350,6 +401,9 @@ func (sp *Spec) Run(rep *core.Report) Stats {
 			p := frontier[i]
 			for _, r := range rs {
 				st.Transitions++
+				if r.obsChanged {
+					st.ObserversStateful = true
+				}
 				np := Path{p.Init, append(append([]Op{}, p.Ops...), r.op)}
 				if len(r.fails) > 0 {
 					cut := false
@@ -415,7 +469,7 @@ func Merge(rep *core.Report, comp string, st Stats) {
 	if per == nil {
 		per = map[string]any{}
 	}
-	per[comp] = map[string]any{"states": st.States, "transitions": st.Transitions, "cut": st.Cut, "pruned_latent": st.Pruned, "depth": st.Depth, "exhaustive": st.Exhaustive, "closure": st.Closure}
+	per[comp] = map[string]any{"observer_suite_added_to_alphabet": st.ObserversStateful, "states": st.States, "transitions": st.Transitions, "cut": st.Cut, "pruned_latent": st.Pruned, "depth": st.Depth, "exhaustive": st.Exhaustive, "closure": st.Closure}
 	rep.Set("per_component", per)
 	ex, ok := rep.Coverage["exhaustive"].(bool)
 	if !ok {
